@@ -13,12 +13,14 @@ Definition entries (keys : list string) (v : sval) : list (string * sval) :=
   let n := List.length keys in
   if Nat.eqb n 1 then map (fun k => (k, v)) keys else map (fun p => (snd p, VProj (fst p) n v)) (combine (seq 0 n) keys).
 Definition call (f : string) (args : list sval) (forced : list (string * kws)) : sval :=
-  VCall f args (map (fun p => (fst p, KwState (snd p))) forced) false.
+  VCall f args (map (fun p => (fst p, KwState (snd p))) forced) PDeclared.
+(* util.filter_kwargs(f, args...) written without **kwargs: no caller keyword reaches the callee *)
+Definition call_nokw (f : string) (args : list sval) : sval := VCall f args [] PNone.
 (* a callee that itself takes **kwargs receives every keyword *)
 Definition call_all (f : string) (args : list sval) (forced : list (string * kws)) : sval :=
-  VCall f args (map (fun p => (fst p, KwState (snd p))) forced) true.
+  VCall f args (map (fun p => (fst p, KwState (snd p))) forced) PAll.
 Definition direct (f : string) (args : list sval) (kw : list (string * sval)) : sval :=
-  VCall f args (map (fun p => (fst p, KwExpr (snd p))) kw) false.
+  VCall f args (map (fun p => (fst p, KwExpr (snd p))) kw) PNone.
 Definition num (n : Z) (d : positive) := KConst (CNum n d).
 Definition vnum (n : Z) (d : positive) := VConst (CNum n d).
 Definition i (x : string) := VInput x.
@@ -41,7 +43,7 @@ Definition tempo_spec : bundle :=
   [([], entries ["P-score"; "One-correct"; "Both-correct"] (call "detection" [i "reference_tempi"; i "reference_weight"; i "estimated_tempi"] []))].
 
 Definition key_spec : bundle :=
-  [([], entries ["Weighted Score"] (call "weighted_score" [i "reference_key"; i "estimated_key"] []))].
+  [([], entries ["Weighted Score"] (call_nokw "weighted_score" [i "reference_key"; i "estimated_key"]))].
 
 Definition multipitch_spec : bundle :=
   [([], entries ["Precision"; "Recall"; "Accuracy"; "Substitution Error"; "Miss Error"; "False Alarm Error"; "Total Error";
